@@ -3,6 +3,7 @@ the run always ends): TLC on S4Run.tla with constants from the build; generated 
 seeded / held / TLC-planned schedules; stdout against the stable merge of the generator's ground truth;
 hook traces validated against TraceS4Run.tla."""
 import os
+import shutil
 import random
 import time
 from concurrent.futures import ThreadPoolExecutor
@@ -293,7 +294,17 @@ def run(pid, tier, seed):
             with open(os.path.join(md, "j.log"), "wb") as f:
                 f.write(render("J", sorted(set([j_inst[0], j_inst[-1], (j_inst[0][0] + 5, 0)]))))
             jl_inst = sorted(set([j_inst[0], j_inst[-1], (j_inst[0][0] + 5, 0)]))
+            # accounting records NOT stored chronologically (lastlog is indexed by uid; wtmp after a clock step): the record at
+            # the physical end of the file is not the latest one, and a long text log has messages between the records
+            nc_disk = [(base_s + 905, 0), (base_s + 1805, 0), (base_s + 5, 0), (base_s + 1205, 5000), (base_s + 2, 7000)]
+            with open(os.path.join(md, "nc.wtmp"), "wb") as f:
+                f.write(b"".join(gen.utmp_record(7, 2000 + i, b"pts/%d" % i, b"n%d" % i, b"v%d" % i, b"g%d" % i, s_, n_ // 1000) for i, (s_, n_) in enumerate(nc_disk)))
+            long_inst = [(base_s + 10 * i, 0) for i in range(300)]
+            with open(os.path.join(md, "long.log"), "wb") as f:
+                f.write(render("L", long_inst))
             msets = [
+                (["nc.wtmp", "long.log"], [sorted(nc_disk), long_inst], []),
+                (["long.log", "nc.wtmp", "a.log"], [long_inst, sorted(nc_disk), t_inst], []),
                 (["a.log", "k.evtx", "wtmp", "z.log"], [t_inst, ev_inst, sorted(u_inst), t_inst], ["-b", gen.fmt_ts(cut[0], cut[1], 0, 6)]),
                 (["k.evtx", "z.log", "a.log", "wtmp"], [ev_inst, t_inst, t_inst, sorted(u_inst)], ["-b", gen.fmt_ts(cut[0], cut[1], 0, 6)]),
                 (["j.log", "u.journal"], [jl_inst, j_inst], []),
@@ -354,6 +365,38 @@ def run(pid, tier, seed):
                     except Exception:
                         pass
 
+        # C06: many sources at once (the quantifier has no bound on N): every worker beyond the channel capacity blocks on
+        # its channel until the printing thread has a message of every source -- no resource shared between workers may
+        # be held while blocked.  300 / 520 sources with 7 messages each (FileInfo + 7 + summary > capacity + 2).
+        wide_runs = 0
+        if pid == "C06":
+            import resource
+            fdlim = resource.getrlimit(resource.RLIMIT_NOFILE)[0]
+            for nsrc in ([300] if tier == "quick" else [257, 300, 520, 1030]):
+                if 2 * nsrc + 64 > fdlim:
+                    log("%s: wide run with %d sources skipped (open-file limit %d)" % (pid, nsrc, fdlim))
+                    continue
+                d = os.path.join(sc, "wide%d" % nsrc)
+                os.makedirs(d)
+                names, srcs = [], []
+                for w in range(nsrc):
+                    blob, msgs = gen.text_source("W%d" % w, [(gen.BASE + 3 * i + (w % 3), 0) for i in range(7)], frac=0, pad=8)
+                    with open(os.path.join(d, "w%04d.log" % w), "wb") as f:
+                        f.write(blob)
+                    names.append("w%04d.log" % w)
+                    srcs.append(msgs)
+                expw = b"".join(m.data for m in gen.expected_merge(srcs))
+                rr = common.run_s4(["--color", "never"] + names, cwd=d, timeout=120)
+                wide_runs += 1
+                rec = {"kind": "wide", "sources": nsrc, "messages_per_source": 7, "rc": rr.rc}
+                if rr.timed_out:
+                    rep.violation("wide:hang", "%d sources of 7 messages: no exit within 120 s, %d bytes printed" % (nsrc, len(rr.out)), rec)
+                elif rr.crashed or rr.rc != 0:
+                    rep.violation("wide:crash", "%d sources: rc=%s %r" % (nsrc, rr.rc, rr.err[-200:]), rec)
+                elif rr.out != expw:
+                    rep.violation("wide:stdout", "%d sources: stdout is not the stable merge" % nsrc, rec)
+                shutil.rmtree(d, ignore_errors=True)
+
         # I->S: every trace against TraceS4Run (all S4Run invariants + PrintIsEarliest at every step)
         accepted = 0
         for bi, batch in enumerate(batches):
@@ -381,7 +424,7 @@ def run(pid, tier, seed):
             "rule": "distinct = (ground-truth instants per source, schedule) pairs; non-trivial = >= 2 sources with at "
                     "least one equal instant inside or across sources",
             "samples": samples, "tlc_configs": details, "tlc_plans_followed": plan_followed, "tlc_plans_run": plan_total,
-            "source_sets": nsets, "closed_pipe_runs": epipe_runs, "mixed_kind_runs": mixed_runs, "exhaustive": False,
+            "source_sets": nsets, "closed_pipe_runs": epipe_runs, "mixed_kind_runs": mixed_runs, "wide_runs": wide_runs, "exhaustive": False,
             "checker_cmd": "tlc -config <generated MC cfg> S4Run.tla ; tlc -workers 1 -config <trace cfg> TraceS4Run.tla",
         }
         rep.assumptions = [
